@@ -755,6 +755,13 @@ func (s *Server) enableProtectionAfterPause() {
 	s.serverLock.Lock()
 	defer s.serverLock.Unlock()
 
+	_, disabledUntil := s.dnsFilter.ProtectionStatus()
+	if disabledUntil == nil || time.Now().Before(*disabledUntil) {
+		// The status has been changed since the pause was seen to be over.
+		// Don't undo that change.
+		return
+	}
+
 	s.dnsFilter.SetProtectionStatus(true, nil)
 
 	log.Info("dns: protection is restarted after pause")
